@@ -231,7 +231,7 @@ def generate(comp, repo, outdir):
             ast = cexpr.parse(text)
             as_bool = t.get("type") == "bool" or (t.get("type") is None and cexpr.is_bool(ast))
             term = cexpr.as_bool(ast, env) if as_bool else cexpr.as_int(ast, env)
-        except (GenError, cexpr.ParseError, ValueError) as e:
+        except (GenError, cexpr.ParseError, ValueError, IndexError, KeyError) as e:
             raise GenError("target %s (%s %s): %s" % (t["name"], t["file"], t.get("func", ""), e))
         params = " ".join("(%s : Z)" % names[p] for p in t.get("params", []))
         ty = "bool" if as_bool else "Z"
